@@ -379,26 +379,61 @@ def blocked_summary(gs):
 ACC = re.compile(r"^(Write|Read|Previous write|Previous read|Atomic write|Atomic read|Previous atomic write|Previous atomic read) at (0x[0-9a-f]+) by (goroutine \d+|main goroutine):")
 
 
+def drop_replayed(frames):
+    """The restored stack of a 'previous' access sometimes carries, between two occurrences of one real frame, the frames of
+    calls that frame made EARLIER and that have returned (e.g. ... rpcHandler.AddTorrent | bbolt.Update .. Session.AddTorrent |
+    rpcHandler.AddTorrent, runtime.call32 ...). Keep the innermost part up to the first occurrence and resume at the last."""
+    out, i = [], 0
+    while i < len(frames):
+        f = frames[i]
+        last = max(j for j in range(i, len(frames)) if frames[j] == f)
+        out.append(f)
+        i = last + 1
+    return out
+
+
 def parse_races(txt):
+    """-> list of (access1, access2); access = {kind, frames (innermost first)}. The detector restores stacks from a shadow
+    stack that may still hold frames of a previous user of the goroutine structure BELOW the goroutine's entry function:
+    every access stack is cut after the entry function (the closure / go-wrapper of the function named first in the
+    'Goroutine N created at' block of the same report)."""
     reps = []
     for blk in txt.split("=================="):
         if "WARNING: DATA RACE" not in blk:
             continue
-        accs, cur = [], None
+        accs, cur, creators, cg = [], None, {}, None
         for line in blk.splitlines():
             m = ACC.match(line)
             if m:
-                cur = {"kind": m.group(1), "frames": []}
+                cur = {"kind": m.group(1), "frames": [], "g": m.group(3)}
                 accs.append(cur)
+                cg = None
                 continue
-            if line.startswith("Goroutine ") or not line.strip():
-                if line.startswith("Goroutine "):
-                    cur = None
+            m = re.match(r"^Goroutine (\d+) \(", line)
+            if m:
+                cur = None
+                cg = "goroutine " + m.group(1)
+                continue
+            fm = re.match(r"^  (\S.*)\(\)$", line)
+            if not fm:
                 continue
             if cur is not None:
-                fm = re.match(r"^  (\S.*)\(\)$", line)
-                if fm:
-                    cur["frames"].append(fm.group(1))
+                cur["frames"].append(fm.group(1))
+            elif cg is not None and cg not in creators:
+                creators[cg] = fm.group(1)
+        for a in accs[:2]:
+            c = creators.get(a["g"])
+            cut = None
+            for i, f in enumerate(a["frames"]):
+                if a["g"] == "main goroutine" and f == "main.main":
+                    cut = i
+                    break
+                if c and f.startswith(c + ".") and re.search(r"\.(func|gowrap)\d+(\.\d+)*$", f):
+                    cut = i
+                    break
+            if cut is not None:
+                a["frames"] = a["frames"][:cut + 1]
+            a["frames"] = drop_replayed(a["frames"])
         if len(accs) >= 2:
             reps.append(accs[:2])
     return reps
@@ -450,7 +485,17 @@ def canon_side(frames, loop_funcs):
             if not re.search(r"\.gowrap\d+$", f):
                 return "ext", f[len(RAIN):]
         return "ext", rain[idx][len(RAIN):]
+    # an accessor method of a torrent called by a session-wide API method (CompactDatabase -> t.torrent.InfoHash()):
+    # the API method is the accessor outside the loop
+    if re.match(r"^torrent\.\(\*?[tT]orrent\)\.", inner):
+        for f in rain:
+            m = re.match(r"^torrent\.\(\*Session\)\.([A-Z]\w*)", f[len(RAIN):])
+            if m:
+                return "ext", "torrent.(*Session)." + m.group(1)
     return "ext", inner
+
+
+THIRD_PARTY = set()
 
 
 def strip_closure(f):
@@ -463,6 +508,9 @@ def race_events(txt, loop_funcs):
         ra, fa = canon_side(a["frames"], loop_funcs)
         rb, fb = canon_side(b["frames"], loop_funcs)
         fa, fb = strip_closure(fa), strip_closure(fb)      # closures are inlined or not depending on the build
+        if fa and fb and fa.startswith("extern:") and fb.startswith("extern:"):
+            THIRD_PARTY.add((fa, fb))                      # both stacks entirely inside a library (e.g. the DHT node): not rain's memory
+            continue
         if fa is None or fb is None:
             # one side never enters rain code: rain memory touched from the harness, or a harness-only race
             if fa is None and fb is None:
@@ -773,8 +821,6 @@ def run(ctx):
     vlib.write_ndjson(tp, slim)
     ncalls = sum(e["n"] for e in trace if e["op"] == "calls")
     nret = sum(e["ret"] for e in trace if e["op"] == "calls")
-    if ncalls < 200:
-        raise vlib.MachineryError("the stress children made only %d calls: nothing was exercised" % ncalls)
     res = ctx.tlc_validate("Trace_Locks", tp, ntraces=nrun[0], timeout=900)
     if not res["ok"]:
         raise vlib.MachineryError("trace not explained by Trace_Locks (driver/spec mismatch, not a verdict) at line %s:\n%s"
@@ -786,6 +832,8 @@ def run(ctx):
                            "race_reports": sum(e["n"] for e in trace if e["op"] == "unsyncAccess"),
                            "hangs": [{k: e[k] for k in ("name", "shape", "confirmed", "cycle")} for e in trace if e["op"] == "hang"],
                            "crashes": [{k: e[k] for k in ("class", "what", "site")} for e in trace if e["op"] == "crash"]}
+    if THIRD_PARTY:
+        ctx.extra["third_party_races_not_judged"] = sorted(THIRD_PARTY)[:20]
     ctx.sample({"run": trace[0]["run"], "first_events": slim[:6]})
     for e in trace:
         if e["op"] == "unsyncAccess":
@@ -816,6 +864,8 @@ def run(ctx):
         ctx.violation(tag, sig, what, d)
     if stale:
         raise vlib.MachineryError(stale)
+    if ncalls < 200 and not ctx.violations and not ctx.known_hits:
+        raise vlib.MachineryError("the stress children made only %d calls: nothing was exercised" % ncalls)
 
 
 def _drop_empty_skip(args):
